@@ -265,6 +265,35 @@ def rule_c_no_input_stores(ctx, m):
     return n
 
 
+SETTINGS_SETTERS = {'dtw_settings_set_psi': 'documented setter: fills the four psi fields of the caller\'s settings'}
+
+
+def rule_c_settings_readonly(ctx, m):
+    """(a') the DTWSettings object is shared: one struct serves every pair of a distance matrix (and every OpenMP thread).  No routine other than
+    the documented setters writes through a `DTWSettings *` parameter; a kernel that does makes later results depend on earlier calls."""
+    n = 0
+    for u in _units(m):
+        for fname, f in sorted(u.funcs.items()):
+            sp = {p for p, t in f.params if 'DTWSettings' in t and '*' in t}
+            if not sp or fname in SETTINGS_SETTERS:
+                continue
+            n += 1
+            bad = []
+            for s in walk_stmts(f.body):
+                if s.k == 'assign' and s.target[0] != 'var':
+                    b = _store_base(s.target)
+                    if b[0] == 'var' and b[1] in sp:
+                        bad.append(s)
+            if not bad:
+                ctx.held('R-EFF', '%s settings parameter read-only' % fname)
+            for s in bad:
+                ctx.violation('R-EFF', u.path, fname, 'store %s' % fmt(s.target),
+                              'the routine writes %s into the caller\'s DTWSettings, which the distance-matrix routines share between all pairs (and OpenMP threads): '
+                              'the result of a later pair depends on the pairs computed before it' % fmt(s.target), s.line)
+    ctx.count('C functions with a settings parameter', n)
+    return n
+
+
 NON_REENTRANT = {'rand', 'srand', 'signal', 'strtok', 'localtime', 'gmtime', 'asctime', 'ctime', 'setlocale', 'getenv', 'exit'}
 
 
